@@ -1,4 +1,4 @@
-"""harness/rustc: the compile-time envelope of C18, program by program against rustc.
+"""rustc probes: the compile-time envelope of C18, program by program against rustc.
 
 Generates a crate of minimal client programs (src/bin/*.rs) that use the REAL macros and
 API, every one under `#![forbid(unsafe_code)]`: for each (holder, structural operation) pair
@@ -168,6 +168,19 @@ def gen_corpus(sigs, ref_impls=None):
     share = "    std::thread::scope(|s| { s.spawn(|| { let _x = world.arch_foo.len(); }); });"
     move_ = "    std::thread::scope(|s| { s.spawn(move || { let w = world; let _x = w.arch_foo.len(); }); });"
     need = "    fn need<T: Copy + Send + Sync>() {}\n    need::<Entity<ArchFoo>>(); need::<EntityDirect<ArchFoo>>(); need::<EntityAny>(); need::<EntityDirectAny>();"
+    # components whose Send and Sync DIFFER: Cell<u32> is Send + !Sync, MutexGuard<'static, u32> is Sync + !Send
+    def prelude_with(ty, mk):
+        return PRELUDE.replace("#[derive(Clone)] pub struct CompA(pub u32);", f"pub struct CompA(pub {ty});") \
+            .replace("CompA(1)", f"CompA({mk})").replace("CompA(3)", f"CompA({mk})").replace("CompA(5)", f"CompA({mk})")
+    need_send = "    fn need_send<T: Send>() {}\n    need_send::<EcsWorld>(); need_send::<ArchFoo>();"
+    cell_prelude = prelude_with("std::cell::Cell<u32>", "std::cell::Cell::new(1)")
+    guard_prelude = "static M: std::sync::Mutex<u32> = std::sync::Mutex::new(0);\n" + prelude_with("std::sync::MutexGuard<'static, u32>", "M.lock().unwrap()")
+    guard_prelude = guard_prelude.replace("let e2 = world.create::<ArchFoo>((CompA(M.lock().unwrap()), CompB(4)));", "let e2 = e;").replace("let eb = world.create::<ArchBar>((CompA(M.lock().unwrap()),));", "")
+    probes.append({"name": "twin_world_with_send_not_sync_component_is_send", "src": cell_prelude + need_send + "\n}\n", "expect": "ok", "why": "a world whose components are Send (but not Sync) is Send"})
+    probes.append({"name": "twin_world_with_send_not_sync_component_moved_to_thread", "src": cell_prelude + move_ + "\n}\n", "expect": "ok", "why": "a world whose components are Send (but not Sync) can be moved to a thread"})
+    probes.append({"name": "bad_world_with_sync_not_send_component_is_send", "src": guard_prelude + need_send + "\n}\n", "expect": "fail", "codes": {"E0277"}, "why": "a world with a Sync-but-not-Send component (a MutexGuard) is not Send"})
+    probes.append({"name": "bad_world_with_sync_not_send_component_moved_to_thread", "src": guard_prelude + move_ + "\n}\n", "expect": "fail", "codes": {"E0277"}, "why": "a world holding a MutexGuard must not be moved to another thread"})
+    probes.append({"name": "bad_world_with_send_not_sync_component_shared", "src": cell_prelude + share + "\n}\n", "expect": "fail", "codes": {"E0277"}, "why": "a world is never Sync (Send-only components)"})
     probes.append({"name": "bad_world_shared_between_threads", "src": program(share), "expect": "fail", "codes": {"E0277"}, "why": "a world is never Sync"})
     probes.append({"name": "twin_world_moved_to_thread", "src": program(move_), "expect": "ok", "why": "a world of Send components is Send"})
     probes.append({"name": "bad_world_with_rc_moved_to_thread", "src": rc_prelude + move_ + "\n}\n", "expect": "fail", "codes": {"E0277"}, "why": "a world with a !Send component is not Send"})
